@@ -28,12 +28,18 @@ REQUIRED_REACH = ['handler:default', 'handler:contextual', 'handler:reraise', 'h
 NSHARDS = 16
 HANDLERS = ['default', 'contextual', 'reraise', 'broken-render-error', 'render-error-raises-http', 'render-error-returns-other']
 ACCEPTS = [None, 'text/html', 'application/json', 'application/xml', '*/*', 'garbage;;q=', 'text/plain',
-           'text/html;q=0.1, application/json']
+           'text/html;q=0.1, application/json',
+           # long real-world headers: size and number of ranges must not matter
+           'text/html,application/xhtml+xml,application/xml;q=0.9,image/avif,image/webp,image/apng,*/*;q=0.8,application/signed-exchange;v=b3;q=0.7',
+           'application/vnd.api+json, application/vnd.github.v3+json;q=0.95, application/vnd.verif.v2+json;q=0.9, application/hal+json;q=0.8, application/json;q=0.6',
+           'application/vnd.verif.t0+json;q=0.9, application/vnd.verif.t1+json;q=0.8, application/vnd.verif.t2+json;q=0.7, application/vnd.verif.t3+json;q=0.6, application/vnd.verif.t4+json;q=0.5, application/vnd.verif.t5+json;q=0.4, application/vnd.verif.t6+json;q=0.3, application/vnd.verif.t7+json;q=0.2, application/vnd.verif.t8+json;q=0.1, application/vnd.verif.t9+json;q=0.9, application/vnd.verif.t10+json;q=0.8, application/vnd.verif.t11+json;q=0.7, application/vnd.verif.t12+json;q=0.6, application/vnd.verif.t13+json;q=0.5, application/vnd.verif.t14+json;q=0.4, application/vnd.verif.t15+json;q=0.3, application/vnd.verif.t16+json;q=0.2, application/vnd.verif.t17+json;q=0.1, application/vnd.verif.t18+json;q=0.9, application/vnd.verif.t19+json;q=0.8, application/xml;q=0.05',
+           'image/x-fmt0, image/x-fmt1, image/x-fmt2, image/x-fmt3, image/x-fmt4, image/x-fmt5, image/x-fmt6, image/x-fmt7, image/x-fmt8, image/x-fmt9, image/x-fmt10, image/x-fmt11, image/x-fmt12, image/x-fmt13, image/x-fmt14, image/x-fmt15, image/x-fmt16, image/x-fmt17, image/x-fmt18, image/x-fmt19, image/x-fmt20, image/x-fmt21, image/x-fmt22, image/x-fmt23, image/x-fmt24, image/x-fmt25, image/x-fmt26, image/x-fmt27, image/x-fmt28, image/x-fmt29, image/x-fmt30, image/x-fmt31, image/x-fmt32, image/x-fmt33, image/x-fmt34, image/x-fmt35, image/x-fmt36, image/x-fmt37, image/x-fmt38, image/x-fmt39, text/html;q=0.3',
+           'text/plain;q=0.4, audio/x-0;q=0.9, audio/x-1;q=0.9, audio/x-2;q=0.9, audio/x-3;q=0.9, audio/x-4;q=0.9, audio/x-5;q=0.9, audio/x-6;q=0.9, audio/x-7;q=0.9, audio/x-8;q=0.9, audio/x-9;q=0.9, audio/x-10;q=0.9, audio/x-11;q=0.9, audio/x-12;q=0.9, audio/x-13;q=0.9, audio/x-14;q=0.9, audio/x-15;q=0.9, audio/x-16;q=0.9, audio/x-17;q=0.9, audio/x-18;q=0.9, audio/x-19;q=0.9, audio/x-20;q=0.9, audio/x-21;q=0.9, audio/x-22;q=0.9, audio/x-23;q=0.9, audio/x-24;q=0.9, audio/x-25;q=0.9, audio/x-26;q=0.9, audio/x-27;q=0.9, audio/x-28;q=0.9, audio/x-29;q=0.9, audio/x-30;q=0.9, audio/x-31;q=0.9, audio/x-32;q=0.9, audio/x-33;q=0.9, audio/x-34;q=0.9, audio/x-35;q=0.9, audio/x-36;q=0.9, audio/x-37;q=0.9, audio/x-38;q=0.9, audio/x-39;q=0.9, audio/x-40;q=0.9, audio/x-41;q=0.9, audio/x-42;q=0.9, audio/x-43;q=0.9, audio/x-44;q=0.9, audio/x-45;q=0.9, audio/x-46;q=0.9, audio/x-47;q=0.9, audio/x-48;q=0.9, audio/x-49;q=0.9, audio/x-50;q=0.9, audio/x-51;q=0.9, audio/x-52;q=0.9, audio/x-53;q=0.9, audio/x-54;q=0.9, audio/x-55;q=0.9, audio/x-56;q=0.9, audio/x-57;q=0.9, audio/x-58;q=0.9, audio/x-59;q=0.9, audio/x-60;q=0.9, audio/x-61;q=0.9, audio/x-62;q=0.9, audio/x-63;q=0.9, audio/x-64;q=0.9, audio/x-65;q=0.9, audio/x-66;q=0.9, audio/x-67;q=0.9, audio/x-68;q=0.9, audio/x-69;q=0.9']
 RETURNS = ['Response', 'str', 'None', 'int', 'dict', 'list', 'bytes', 'float']
 EXC_KINDS = ['ValueError', 'KeyError', 'TypeError', 'RuntimeError', 'ZeroDivisionError', 'AttributeError', 'IndexError',
              'OSError', 'UnicodeDecodeError', 'AssertionError', 'LookupError', 'Custom', 'NoArgs', 'NonStrArgs',
              'NameError', 'StopIteration', 'RecursionError', 'NotImplementedError']
-MSG_KINDS = ['ascii', 'nonascii', 'huge', 'badstr', 'badrepr', 'surrogate', 'markup', 'empty']
+MSG_KINDS = ['ascii', 'nonascii', 'huge', 'badstr', 'badrepr', 'surrogate', 'markup', 'empty', 'multiline', 'crlf', 'control']
 POSITIONS = ['ep', 'rn'] + ['m%d.%s.%s' % (k, ph, when) for k in range(3) for ph in ('request', 'endpoint', 'render')
                             for when in ('before', 'after')]
 
@@ -69,7 +75,9 @@ def http_classes():
 
 def message(kind):
     return {'ascii': 'plain failure', 'nonascii': 'caf\xe9 ☃ 日本', 'huge': 'x' * (1 << 20),
-            'surrogate': 'bad \udc80 name', 'markup': '<b>&"\'{x}{#y}', 'empty': ''}.get(kind, 'msg')
+            'surrogate': 'bad \udc80 name', 'markup': '<b>&"\'{x}{#y}', 'empty': '',
+            'multiline': 'upstream said:\n  line 1\n  line 2\n', 'crlf': 'bad header\r\nX-Injected: 1\r\n\r\nbody',
+            'control': 'bell\x07 nul\x00 esc\x1b[31m tab\t vt\x0b'}.get(kind, 'msg')
 
 
 def make_exception(exc_kind, msg_kind):
@@ -196,6 +204,10 @@ def build_app(kind):
     mws = [make_mw(k) for k in range(3)]
     routes = []
     for depth in range(4):
+        # a sibling on the same path that only admits a method the workload never sends: it is passed over (and leaves its
+        # method set in the dispatch state) before the route under test runs
+        routes.append(Route('/d%d/norender' % depth, lambda: Response('patched'), methods=['PATCH']))
+        routes.append(Route('/d%d/spyrender' % depth, lambda: Response('patched'), methods=['PATCH']))
         routes.append(Route('/d%d/norender' % depth, ep, middlewares=mws[:depth]))
         routes.append(Route('/d%d/spyrender' % depth, ep, rn, middlewares=mws[:depth]))
     routes.append(Route('/ok', lambda: Response('fine', mimetype='text/plain')))
